@@ -96,6 +96,25 @@ def gen_lg_case(rng, idx, rkind=None, noise=None, dims=None, cplx=False):
             "s0": [int(x) for x in s0], "sinv": [str(x) for x in sinv]}
 
 
+def gen_illcond_case(rng, idx, n=12):
+    """Ill-conditioned linear model: R = signed permutation of diag(4, 2, 1, 1/2, ...), sigma = 1/32,
+    so that R^T N^-1 R + 1 has eigenvalues spread over seven decades (all entries dyadic => exact)."""
+    perm = rng.permutation(n)
+    sgn = rng.choice([-1, 1], size=n)
+    vals = [Fr(4) / Fr(2) ** k for k in range(n)]
+    R = [[Fr(0)] * n for _ in range(n)]
+    for i in range(n):
+        R[i][int(perm[i])] = vals[i] * int(sgn[i])
+    W = [[Fr(32) if i == j else Fr(0) for j in range(n)] for i in range(n)]
+    Wi = [[Fr(1, 32) if i == j else Fr(0) for j in range(n)] for i in range(n)]
+    zero = [[0] * n for _ in range(n)]
+    return {"idx": int(idx), "m": n, "n": n, "rkind": "illcond", "noise": "diag", "rank": n,
+            "R": [[str(x) for x in r] for r in R], "W": [[str(x) for x in r] for r in W],
+            "Wi": [[str(x) for x in r] for r in Wi], "d": [int(x) for x in rng.integers(-3, 4, size=n)],
+            "Q": zero, "c": [0] * n, "p": [0] * n, "s0": [int(x) for x in rng.integers(-2, 3, size=n)],
+            "sinv": ["1"] * n}
+
+
 def frmat(a):
     return [[Fr(x) for x in r] for r in a]
 
